@@ -278,36 +278,90 @@ func runC04(p *Prog, r *Report) {
 			}
 		}
 	}
-	// key/amount of the update inside acquire/release = the routine's own parameters
-	for _, fn := range []*ssa.Function{c.acquire, c.release} {
+	// key and amount of the increment and of the decrement, resolved to values of ServeHTTP
+	// (through the routine's parameters and the call / defer arguments, or through the captured
+	// variables when the release is a deferred closure): both must be the very token and amount
+	// of this request, and each update must be connections[k] := connections[k] +/- amount
+	toServe := func(fn *ssa.Function, v ssa.Value) ssa.Value {
+		v = stripConv(v)
+		if fn == c.serve {
+			return v
+		}
+		if fn.Parent() == c.serve && c.deferRel != nil {
+			if mc, ok := c.deferRel.Common().Value.(*ssa.MakeClosure); ok && mc.Fn == ssa.Value(fn) {
+				b := resolveFree(v, fn, mc)
+				if al, ok := b.(*ssa.Alloc); ok {
+					if cv := cellContent(al); cv != nil {
+						return stripConv(cv)
+					}
+				}
+				return stripConv(b)
+			}
+		}
+		if pi := paramIndex(fn, v); pi >= 0 {
+			var args []ssa.Value
+			switch {
+			case fn == c.acquire:
+				args = c.acquireCal.Common().Args
+			case fn == c.release && c.deferRel != nil:
+				args = deferArgs(c.deferRel)
+			}
+			if pi < len(args) {
+				a := stripConv(args[pi])
+				if al, ok := a.(*ssa.Alloc); ok {
+					if cv := cellContent(al); cv != nil {
+						return stripConv(cv)
+					}
+				}
+				return a
+			}
+		}
+		return nil
+	}
+	type upd struct {
+		key, delta ssa.Value
+		ok         bool
+		in         ssa.Instruction
+	}
+	var ups [2]upd
+	for i, fn := range []*ssa.Function{c.acquire, c.release} {
 		for _, b := range fn.Blocks {
 			for _, in := range b.Instrs {
 				mu, ok := in.(*ssa.MapUpdate)
 				if !ok || !mapFieldOf(mu.Map, c.typ, c.mapField) {
 					continue
 				}
-				bo, _ := stripConv(mu.Value).(*ssa.BinOp)
-				okKey := paramIndex(fn, stripConv(mu.Key)) == 1
-				okAmt := bo != nil && paramIndex(fn, stripConv(bo.Y)) == 2
-				okOld := false
-				if bo != nil {
+				u := upd{in: in}
+				// value = connections[key] +/- amount (possibly through a local: remaining := m[k] - a; m[k] = remaining)
+				if bo, ok := stripConv(mu.Value).(*ssa.BinOp); ok && (bo.Op == token.ADD || bo.Op == token.SUB) {
 					if lk, ok := stripConv(bo.X).(*ssa.Lookup); ok && mapFieldOf(lk.X, c.typ, c.mapField) && sameValue(lk.Index, mu.Key) {
-						okOld = true
+						u.ok = true
 					}
+					u.delta = toServe(fn, bo.Y)
 				}
-				r.Check(okKey && okAmt && okOld, "C04.R2", "update of the per-source counter in "+FName(fn), p.InstrPos(in),
-					"connections[token] := connections[token] ± amount with the routine's own token and amount parameters",
-					"the counter update does not use the routine's token parameter as key and its amount parameter as delta on the same entry")
+				u.key = toServe(fn, mu.Key)
+				ups[i] = u
 			}
 		}
 	}
-	if c.deferRel != nil {
-		aa := c.acquireCal.Common().Args
-		da := deferArgs(c.deferRel)
-		same := len(aa) == 3 && len(da) == 3 && sameArg(aa[1], da[1]) && sameArg(aa[2], da[2])
-		r.Check(same, "C04.R2", sv+": acquire and release get the same token and amount", p.InstrPos(c.deferRel),
-			"the deferred release is called with the very SSA values (token, amount) passed to acquire",
-			"the deferred release is not called with the token and amount values that were passed to acquire: slots are returned to a different source or in a different quantity")
+	for i, what := range []string{"increment", "decrement"} {
+		u := ups[i]
+		pos := "-"
+		if u.in != nil {
+			pos = p.InstrPos(u.in)
+		}
+		r.Check(u.ok && u.key != nil && u.delta != nil, "C04.R2", "connlimit: "+what+" of the per-source counter has the form connections[k] := connections[k] +/- amount", pos,
+			"same entry read and written, delta resolved", "the "+what+" is not connections[k] := connections[k] +/- amount on one entry")
+	}
+	if ups[0].key != nil && ups[1].key != nil && ups[0].delta != nil && ups[1].delta != nil {
+		same := sameArg(ups[0].key, ups[1].key) && sameArg(ups[0].delta, ups[1].delta)
+		pos := p.FuncPos(c.serve)
+		if c.deferRel != nil {
+			pos = p.InstrPos(c.deferRel)
+		}
+		r.Check(same, "C04.R2", sv+": acquire and release get the same token and amount", pos,
+			"increment and decrement use the very same (token, amount) values of this request",
+			"the release does not use the token and amount values with which the slot was taken: slots are returned to a different source or in a different quantity")
 	}
 
 	// ---- R3: defer on the success edge, before the handler, nothing in between ----
